@@ -520,7 +520,7 @@ func TestSymRapid(t *testing.T) {
 			wrongKinds = append(wrongKinds, k.Name)
 		}
 	}
-	vk.Check(t, 6000, 300000, func(rt *rapid.T) {
+	vk.Check(t, 40000, 1200000, func(rt *rapid.T) {
 		c := symCase{API: rapid.SampledFrom([]string{"sym", "generic"}).Draw(rt, "api"), Alg: rapid.SampledFrom(names).Draw(rt, "alg"), KeyKind: "oct"}
 		spec, _ := refcrypto.Spec(c.Alg)
 		switch k := rapid.IntRange(0, 19).Draw(rt, "keyClass"); {
